@@ -30,6 +30,37 @@ impl Drop for Fin {
     }
 }
 
+/// Stretches the window between "the scope's context is cancelled" and whatever the cancelling thread does next: the waker handed to
+/// `ctx.canceled()` first wakes the waiting task (which then runs on another worker) and then stalls the CANCELLING thread for a moment.
+/// If a failure is recorded only after the cancellation it caused, a task that fails in reaction to the cancellation gets there first.
+struct StallWaker {
+    inner: std::task::Waker,
+    ms: u64,
+}
+impl std::task::Wake for StallWaker {
+    fn wake(self: Arc<Self>) {
+        self.inner.wake_by_ref();
+        std::thread::sleep(std::time::Duration::from_millis(self.ms));
+    }
+}
+async fn canceled_stalling(ctx: &ctx::Ctx, ms: u64) {
+    let fut = ctx.canceled();
+    tokio::pin!(fut);
+    std::future::poll_fn(|cx| {
+        let w = std::task::Waker::from(Arc::new(StallWaker { inner: cx.waker().clone(), ms }));
+        let mut cx2 = std::task::Context::from_waker(&w);
+        fut.as_mut().poll(&mut cx2)
+    })
+    .await
+}
+async fn wait_cancel(ctx: &ctx::Ctx, stall: bool) {
+    if stall {
+        canceled_stalling(ctx, 2).await
+    } else {
+        ctx.canceled().await
+    }
+}
+
 async fn yields(n: u32) {
     for _ in 0..n {
         tokio::task::yield_now().await;
@@ -59,12 +90,12 @@ fn task<'env>(ctx: &'env ctx::Ctx, s: &'env scope::Scope<'env, String>, prog: Ar
             "e2" => Err("e2".to_string()),
             "panic" => panic!("task panic"),
             "wait_ok" => {
-                ctx.canceled().await;
+                wait_cancel(ctx, seed % 5 == 0).await;
                 yields(r.gen_range(0..3)).await;
                 Ok(())
             }
             "wait_e3" => {
-                ctx.canceled().await;
+                wait_cancel(ctx, seed % 5 == 0).await;
                 yields(r.gen_range(0..3)).await;
                 Err("e3".to_string())
             }
